@@ -92,6 +92,8 @@ func propC13(c *Check) {
 	c.Rule("R1", "ranking pairing: every PowerRanking.Set uses the record's current power and happens only for Pending/Active records; every change of Power of a record that was ranked when loaded is preceded by PowerRanking.Remove of the loaded power")
 	c.Rule("R2", "positive power: every PowerRanking.Set is dominated by a `power > 0` guard on the value inserted (a zero-power entry would be reported to CometBFT as a zero-power addition)")
 	c.Rule("R3", "a status write that leaves {Pending, Active} is preceded by PowerRanking.Remove and followed by no PowerRanking.Set; the locking index is written only for Pending/Active records and cleared when a record leaves them")
+	c.Rule("R5", "the begin blocker cannot fail on a block without a last commit (the first block of a chain; its height is above 1 when the chain starts from an exported state): every explicit failure exit of the reward distribution is reached only with a non-empty vote list")
+	c.hookFailureNeedsLastCommit("R5")
 	c.Rule("R4", "EndBlocker emission: each update carries the power and key of the record just loaded, additions are mirrored in ValidatorSet, removals delete from it, the walk is bounded by MaxValidators, unranked records abort")
 	vfs, en := p.validatorFns()
 	ranked := en.Set("Pending", "Active")
